@@ -83,8 +83,12 @@ impl EntryTrait for IndexEntry {
 
     #[inline]
     fn mtime(&self) -> Timestamp {
-        Timestamp::new(self.mtime, self.mtime_nanos.try_into().unwrap())
-            .expect("Failed to convert mtime and mtime_nanos to Timestamp")
+        // The values come from a decoded index hunk: if the archive is damaged they might
+        // not form a valid time, and that must not crash a listing or restore.
+        match i32::try_from(self.mtime_nanos) {
+            Ok(nanos) => Timestamp::new(self.mtime, nanos).unwrap_or(Timestamp::UNIX_EPOCH),
+            Err(_) => Timestamp::UNIX_EPOCH,
+        }
     }
 
     /// Size of the file, if it is a file. None for directories and symlinks.
